@@ -165,6 +165,9 @@ def cases(tier, seed):
         trees += [["dense", 4, 4, F8], ["dense", 2, 4, C16], ["kron", ["dense", 2, 2, F8], ["dense", 2, 2, F8]],
                   ["blockdiag", [["dense", 2, 2, F8]], [2]], ["sliced", ["kron", ["dense", 2, 2, F8], ["dense", 2, 2, F8]], ["s", None, None, 2], ["s", 1, None, None]],
                   ["product", ["scalar", 3, F8], ["dense", 3, 4, F8]]]
+    # seeded random trees of depth <= 3 (8 fixed samples, selected by VERIF_SEED mod 8)
+    from .common import random_trees
+    trees += [t for t in random_trees(4000 + seed % 8, 12 if not rich else 400) if tree_name(t) not in {tree_name(x) for x in trees}]
     for t in trees:
         m, n = tree_shape(t)
         out.append((f"int:{tree_name(t)}", case_ints, dict(tree=t)))
